@@ -39,6 +39,7 @@ public:
   std::map<std::string, long> fired_by_kind;
   long fired = 0;
   bool yield_in_calls = true;
+  int actor = -1;            // when >= 0 replaces the task id (sequential reference runs of a task's plan)
   // optional observers (set by profiles)
   std::function<void(int module, void* ctx, long oid)> on_create;
   std::function<void(long point, void* ctx)> on_point;
